@@ -225,7 +225,8 @@ def step_clauses(inputs=("x",), witness=None, root=None, may_return_input=False,
             # proved so far -- otherwise the implications below would hold vacuously
             from pyvc.engine import Oblig
 
-            E.covers.append(Oblig(f"{E.prop}/{E.cur_contract.short}/cover/step-hypothesis-reachable", list(E.pc) + hyp, z3.BoolVal(False), "cover", getattr(E, "variant", "")))
+            if not any(z3.is_false(h) for h in E.pc):  # (a path that already carries a failed obligation `False` is reported by that obligation)
+                E.covers.append(Oblig(f"{E.prop}/{E.cur_contract.short}/cover/step-hypothesis-reachable", list(E.pc) + hyp, z3.BoolVal(False), "cover", getattr(E, "variant", "")))
         return E.ghost[key]
 
     def well_formed(part):
